@@ -64,26 +64,31 @@ Check change_carries_current_list :
                             end.
 Print Assumptions change_carries_current_list.
 
-(* The flags are sound for skipping: best_changed = false means the best path's
-   content (source, attribute block, next hop) did not change, any_changed = false
-   means the whole eligible list did not change. *)
+(* The flags are sound for skipping.  If every notification an operation emits for a
+   prefix says best_changed = false (in particular if there is none), the content
+   (source, attribute block, next hop) of the prefix's best path did not change; if
+   every one says any_changed = false, the eligible list did not change.  (One
+   operation may emit several notifications for a prefix: restale_llgr names every
+   marked path; they all carry the same list.) *)
 Theorem skip_flags_sound :
-  forall shard ops o c,
+  forall shard ops o net,
     consistent (ops ++ [o]) ->
     let t := run (empty_table shard) ops in
-    In c (step_cs t o) ->
-    (c_best_changed c = false ->
-     head_content (elig_of t (c_net c)) = head_content (elig_of (step_t t o) (c_net c)))
-    /\ (c_any_changed c = false -> elig_of t (c_net c) = elig_of (step_t t o) (c_net c)).
+    t_deferring t = false ->
+    ((forall c, In c (step_cs t o) -> c_net c = net -> c_best_changed c = false) ->
+     head_content (elig_of t net) = head_content (elig_of (step_t t o) net))
+    /\ ((forall c, In c (step_cs t o) -> c_net c = net -> c_any_changed c = false) ->
+        elig_of t net = elig_of (step_t t o) net).
 Proof. exact C06_skip_flags_sound. Qed.
 Check skip_flags_sound :
-  forall shard ops o c,
+  forall shard ops o net,
     consistent (ops ++ [o]) ->
     let t := run (empty_table shard) ops in
-    In c (step_cs t o) ->
-    (c_best_changed c = false ->
-     head_content (elig_of t (c_net c)) = head_content (elig_of (step_t t o) (c_net c)))
-    /\ (c_any_changed c = false -> elig_of t (c_net c) = elig_of (step_t t o) (c_net c)).
+    t_deferring t = false ->
+    ((forall c, In c (step_cs t o) -> c_net c = net -> c_best_changed c = false) ->
+     head_content (elig_of t net) = head_content (elig_of (step_t t o) net))
+    /\ ((forall c, In c (step_cs t o) -> c_net c = net -> c_any_changed c = false) ->
+        elig_of t net = elig_of (step_t t o) net).
 Print Assumptions skip_flags_sound.
 
 (* When the family is not deferring, a prefix for which an operation emits no
